@@ -4,8 +4,6 @@ import (
 	"time"
 )
 
-var vfCodes = []int{200, 404, 500, 502, 504}
-
 // C18-O2: the metrics the condition reads reflect exactly the responses recorded since the
 // last reset (k records within one counter slot; histories crossing slots are C17's subject).
 func VerifC18Metrics() {
@@ -20,9 +18,8 @@ func VerifC18Metrics() {
 	verifAssert("metrics-ok", err == nil)
 	nNet, n5xx, n4xx, total := 0, 0, 0, 0
 	for i := 0; i < k; i++ {
-		cv := verifInt(verifName("code", i))
-		verifAssume(verifAnd(cv >= 0, cv <= 4))
-		code := vfCodes[verifConcretize(cv, 0, 4)]
+		code := verifInt(verifName("code", i))
+		verifAssume(verifAnd(code >= 100, code <= 599))
 		m.Record(code, time.Duration(verifInt64(verifName("lat", i))))
 		total++
 		if code == 502 || code == 504 {
